@@ -482,7 +482,7 @@ impl FsResourcesState {
 //@lsubst Self => FsResourcesState
 //@contract
     ensures *final(w) == *old(w),
-        /*[C03.record]*/ r matches Ok(s) ==> is_fs_state(s.view(), old(w).snap, resources@),
+        /*[C03.record,C15.same-listing]*/ r matches Ok(s) ==> is_fs_state(s.view(), old(w).snap, resources@),
 //@pre
         broadcast use group_keys;
         broadcast use vstd::std_specs::hash::group_hash_axioms;
@@ -519,7 +519,7 @@ impl FsResourcesState {
 //@closure 0 skeleton=`let futures = files.into_iter().map(<CLOSURE>);` becomes=`let futures = (files, self);`
 //@contract
     ensures *final(w) == *old(w),
-        /*[C02.fs-set,C02.fs-file]*/ r ==> fs_unchanged(self.view(), old(w).snap, resources@),
+        /*[C02.fs-set,C02.fs-file,C15.same-listing]*/ r ==> fs_unchanged(self.view(), old(w).snap, resources@),
         /*[C03.reflexive]*/ fs_unchanged(self.view(), old(w).snap, resources@) ==> r,
 //@pre
         broadcast use group_keys;
